@@ -88,7 +88,8 @@ func libHash(text []byte, full bool) (h libHashes, td *eip712.TypedData, vs []ev
 		}
 		h.msg = m
 	}
-	dm, err := eip712.HashStruct(ctx, eip712.EIP712Domain, td.Domain, td.Types)
+	types, domain := tdgen.DomainDefaults(td)
+	dm, err := eip712.HashStruct(ctx, eip712.EIP712Domain, domain, types)
 	if err != nil {
 		vs = append(vs, evid.V("hashstruct", "HashStruct(EIP712Domain) failed: %v", err))
 	}
